@@ -666,13 +666,11 @@ def fold(t):
         if isinstance(a, tuple) and a[0] == "agg" and a[1] == "adt" and a[2] in ("std::ops::ControlFlow", "std::option::Option", "std::result::Result"):
             pos = {"is_break": "Break", "is_continue": "Continue", "is_some": "Some", "is_none": "None", "is_ok": "Ok", "is_err": "Err"}[t[1].rsplit("::", 1)[1]]
             return ("const", ("int", 1 if a[3] == pos else 0, "bool"))
-    elif k == "call" and len(t[2]) == 1 and t[1].endswith("slice::<impl [T]>::len"):
-        a = t[2][0]
-        if isinstance(a, tuple) and a[0] == "const" and a[1][0] == "bytes":
-            return ("const", ("int", len(a[1][1]), "usize"))
     elif (k == "un" and t[1] == "PtrMetadata") or (k == "call" and len(t[2]) == 1 and t[1].endswith("slice::<impl [T]>::len")):
-        # the length of an item of `x.chunks_exact(n)` is n
         a = t[2] if k == "un" else t[2][0]
+        if k == "call" and isinstance(a, tuple) and a[0] == "const" and a[1][0] == "bytes":
+            return ("const", ("int", len(a[1][1]), "usize"))
+        # the length of an item of `x.chunks_exact(n)` is n
         while isinstance(a, tuple) and a and a[0] in ("ref", "deref", "copy") and len(a) > 1 and isinstance(a[1], tuple):
             a = a[1]
         if isinstance(a, tuple) and a and a[0] == "somepayload" and isinstance(a[1], tuple) and a[1] and a[1][0] == "call" and \
@@ -687,6 +685,13 @@ def fold(t):
                     break
             if isinstance(ch, tuple) and ch and ch[0] == "call" and ch[1].endswith("slice::<impl [T]>::chunks_exact") and len(ch[2]) == 2 and _cint(ch[2][1]) is not None:
                 return ("const", ("int", _cint(ch[2][1]), "usize"))
+        if isinstance(a, tuple) and len(a) > 3 and a[0] == "field" and a[3] == 0 and isinstance(a[1], tuple) and a[1] and a[1][0] == "call" and \
+                re.search(r"slice::<impl \[T\]>::split_at(_mut)?$", a[1][1]) and len(a[1][2]) == 2:
+            # `x.split_at(n).0.len()` is n (split_at panics unless n <= x.len())
+            return a[1][2][1]
+        if k == "un":
+            # the length a slice pattern (`[]`, `[first, ..]`) reads is the length `len()` returns: one spelling for both
+            return ("call", "core::slice::<impl [T]>::len", (t[2],), None)
     elif k in ("discr", "somepayload") and isinstance(t[1], tuple) and t[1] and t[1][0] == "call" and isinstance(t[1][1], str) and \
             t[1][1].endswith("bool>::then_some") and len(t[1][2]) == 2:
         # `c.then_some(v)` is Some(v) exactly when c: its discriminant is c (None = 0 = false), its payload v
@@ -1086,9 +1091,23 @@ def _array_behind_iter(B, bi, it_l):
     """When local it_l is `&mut it` with `it = IntoIterator::into_iter(ARR)` (or `<[T]>::iter(&ARR)`) and ARR is, through moves, an array
     aggregate built in this body: the list of its element operands; else None."""
     d = _unique_def(B, it_l)
+    for _ in range(4):
+        # `&mut *r` with `r = &mut it` (the reborrow a `for` loop's desugaring makes) is `&mut it`
+        if d is not None and d["rv"]["k"] == "ref" and d["rv"]["place"]["p"] == ["deref"]:
+            d = _unique_def(B, d["rv"]["place"]["l"])
+        else:
+            break
     if d is None or d["rv"]["k"] != "ref" or d["rv"]["place"]["p"]:
         return None
     itl = d["rv"]["place"]["l"]
+    for _ in range(4):
+        # `let mut it = into_iter(..)`: the iterator variable is a move of the call's result
+        dm = _unique_def(B, itl)
+        mp = (dm["rv"]["op"].get("move") if dm is not None and dm["rv"]["k"] == "use" else None)
+        if mp is not None and not mp["p"]:
+            itl = mp["l"]
+        else:
+            break
     calls = [bk["term"] for bk in B["blocks"] if bk["term"]["k"] == "call" and bk["term"]["dest"]["l"] == itl and not bk["term"]["dest"]["p"]]
     if len(calls) != 1 or "indirect" in calls[0]["func"] or len(calls[0]["args"]) != 1:
         return None
@@ -1234,6 +1253,139 @@ def _expand_map_or_else(B, bi, t, by_path, lazy_default):
     blk = B["blocks"][bi]
     blk["stmts"].append(A(dl, {"k": "discr", "place": {"l": r_pl["l"], "p": []}, "of": rty}))
     blk["term"] = {"k": "switch", "discr": {"move": {"l": dl, "p": []}}, "dty": "isize", "vals": ["0", "1"], "tgts": [NONE, SOME], "otherwise": UNR, "line": line, "exp": None, "inlined": cf[0]}
+    return True
+
+
+def _expand_filter(B, bi, t, by_path):
+    """`dest = opt.filter(|x| pred)` with a local closure becomes
+         switch discriminant(opt) { None => dest = None, Some => if pred(&payload) { dest = Some(payload) } else { dest = None } }
+    so that a flag carried as `Some(v).filter(..)` and the `if` it stands for are the same shape."""
+    if len(t["args"]) != 2 or t.get("t") is None:
+        return False
+    r_pl = t["args"][0].get("move") or t["args"][0].get("copy")
+    if r_pl is None or r_pl["p"]:
+        return False
+    cf = _resolve_closure_local(B, t["args"][1])
+    if cf is None or cf[0] not in by_path or by_path[cf[0]]["arg_count"] != 2:
+        return False
+    F = by_path[cf[0]]
+    if F is B or _has_loop(F) or str(F["locals"][0].get("ty", "")) != "bool" or not str(F["locals"][2].get("ty", "")).startswith("&"):
+        return False
+    rty = B["locals"][r_pl["l"]].get("ty", "")
+    item_ty = str(F["locals"][2]["ty"])[1:].lstrip()
+    line = t.get("line", 0)
+    def A(lhs, rv):
+        return {"k": "assign", "lhs": lhs if isinstance(lhs, dict) else {"l": lhs, "p": []}, "rv": rv, "line": line, "exp": None}
+    def G(tgt):
+        return {"k": "goto", "t": tgt, "line": line, "exp": None}
+    payload = {"l": r_pl["l"], "p": [{"dc": 1, "n": "Some"}, {"f": 0, "n": "0", "ty": item_ty, "of": rty}]}
+    B["locals"] = B["locals"] + [{"ty": "isize"}, {"ty": "bool"}]
+    dl, R = len(B["locals"]) - 2, len(B["locals"]) - 1
+    lo = len(B["locals"])
+    B["locals"] = B["locals"] + [dict(l) for l in F["locals"]]
+    bo = len(B["blocks"])
+    NONE, SOME, AFTER, KEEP, UNR, BODY = bo, bo + 1, bo + 2, bo + 3, bo + 4, bo + 5
+    _SUB.clear()
+    _POWNER[0] = cf[0]
+    body_blocks = _copy_body(B, F, lo, BODY, {"l": R, "p": []}, AFTER, line)
+    _POWNER[0] = None
+    none_agg = {"k": "agg", "ak": "adt", "adt": "std::option::Option", "variant": 0, "vname": "None", "fnames": [], "active": None, "fields": []}
+    some_agg = {"k": "agg", "ak": "adt", "adt": "std::option::Option", "variant": 1, "vname": "Some", "fnames": ["0"], "active": None, "fields": [{"copy": payload}]}
+    env = []
+    if cf[1] is not None:
+        if str(F["locals"][1].get("ty", "")).startswith("&"):
+            env.append(A(lo + 1, {"k": "ref", "place": {"l": cf[1], "p": []}, "mut": str(F["locals"][1]["ty"]).startswith("&mut")}))
+        else:
+            env.append(A(lo + 1, {"k": "use", "op": {"copy": {"l": cf[1], "p": []}}}))
+    none_blk = {"cleanup": False, "stmts": [A(t["dest"], none_agg)], "term": G(t["t"])}
+    some_blk = {"cleanup": False, "stmts": env + [A(lo + 2, {"k": "ref", "place": payload, "mut": False})], "term": G(BODY)}
+    after = {"cleanup": False, "stmts": [], "term": {"k": "switch", "discr": {"copy": {"l": R, "p": []}}, "dty": "bool", "vals": ["0"], "tgts": [NONE], "otherwise": KEEP, "line": line, "exp": None}}
+    keep = {"cleanup": False, "stmts": [A(t["dest"], some_agg)], "term": G(t["t"])}
+    unr = {"cleanup": False, "stmts": [], "term": {"k": "unreachable", "line": line, "exp": None}}
+    B["blocks"] = B["blocks"] + [none_blk, some_blk, after, keep, unr] + body_blocks
+    blk = B["blocks"][bi]
+    blk["stmts"].append(A(dl, {"k": "discr", "place": {"l": r_pl["l"], "p": []}, "of": rty}))
+    blk["term"] = {"k": "switch", "discr": {"move": {"l": dl, "p": []}}, "dty": "isize", "vals": ["0", "1"], "tgts": [NONE, SOME], "otherwise": UNR, "line": line, "exp": None, "inlined": cf[0]}
+    return True
+
+
+def _unroll_array_for(B, bi, t):
+    """`for x in [a, b, c] { body }` (the `next` call of a loop over an array literal built in this body) becomes the body once per
+    element, in order: the same straight-line shape as writing the statements out, and as the `try_for_each` form."""
+    import copy as _copy
+    if len(t["args"]) != 1 or t.get("t") is None or t["dest"]["p"]:
+        return False
+    pl = t["args"][0].get("move") or t["args"][0].get("copy")
+    if pl is None or pl["p"]:
+        return False
+    elems = _array_behind_iter(B, bi, pl["l"])
+    if elems is None or not (0 < len(elems) <= 8):
+        return False
+    NX, TEST = t["dest"]["l"], t["t"]
+    tb = B["blocks"][TEST]
+    tt = tb["term"]
+    if TEST == bi or tt["k"] != "switch" or list(tt["vals"]) != ["0", "1"]:
+        return False
+    if not any(s_["k"] == "assign" and s_["rv"]["k"] == "discr" and s_["rv"]["place"]["l"] == NX and not s_["rv"]["place"]["p"] for s_ in tb["stmts"]):
+        return False
+    EXIT, BODY = tt["tgts"]
+    fwd, stack = set(), [BODY]
+    while stack:
+        n = stack.pop()
+        if n in fwd or n == bi:
+            continue
+        fwd.add(n)
+        stack.extend(_succ_raw(B["blocks"][n]))
+    loop, grew = set(), True
+    while grew:
+        grew = False
+        for n in fwd:
+            if n not in loop and any(x == bi or x in loop for x in _succ_raw(B["blocks"][n])):
+                loop.add(n)
+                grew = True
+    if BODY not in loop or TEST in loop or EXIT in loop or len(loop) * len(elems) > 600:
+        return False
+    line = t.get("line", 0)
+    members = [bi, TEST] + sorted(loop)
+    bo = len(B["blocks"])
+    maps = [{m: bo + k * len(members) + j for j, m in enumerate(members)} for k in range(len(elems))]
+    FINAL = bo + len(elems) * len(members)
+    def retarget(term, mk, nxt):
+        def r(x):
+            if x == bi:
+                return nxt
+            return mk.get(x, x)
+        if term["k"] == "goto":
+            term["t"] = r(term["t"])
+        elif term["k"] == "switch":
+            term["tgts"] = [r(x) for x in term["tgts"]]
+            term["otherwise"] = r(term["otherwise"])
+        elif term["k"] in ("call", "drop", "assert") and term.get("t") is not None:
+            term["t"] = r(term["t"])
+    new_blocks = []
+    for k, el in enumerate(elems):
+        mk = maps[k]
+        nxt = maps[k + 1][bi] if k + 1 < len(elems) else FINAL
+        epl = el.get("move") or el.get("copy")
+        some = {"k": "agg", "ak": "adt", "adt": "std::option::Option", "variant": 1, "vname": "Some", "fnames": ["0"], "active": None,
+                "fields": [({"copy": epl} if epl is not None else el)]}
+        for m in members:
+            nb = _copy.deepcopy(B["blocks"][m])
+            if m == bi:
+                nb["stmts"].append({"k": "assign", "lhs": {"l": NX, "p": []}, "rv": some, "line": line, "exp": None})
+                nb["term"] = {"k": "goto", "t": mk[TEST], "line": line, "exp": None}
+            elif m == TEST:
+                nb["term"] = {"k": "goto", "t": mk[BODY], "line": line, "exp": None}
+            else:
+                retarget(nb["term"], mk, nxt)
+            new_blocks.append(nb)
+    none = {"k": "agg", "ak": "adt", "adt": "std::option::Option", "variant": 0, "vname": "None", "fnames": [], "active": None, "fields": []}
+    final = {"cleanup": False, "stmts": [{"k": "assign", "lhs": {"l": NX, "p": []}, "rv": none, "line": line, "exp": None}],
+             "term": {"k": "goto", "t": EXIT, "line": line, "exp": None}}
+    B["blocks"] = B["blocks"] + new_blocks + [final]
+    blk = B["blocks"][bi]
+    blk["stmts"] = []
+    blk["term"] = {"k": "goto", "t": maps[0][bi], "line": line, "exp": None, "inlined": "for-array"}
     return True
 
 
@@ -1839,6 +1991,58 @@ def _inline_simple_consts(facts):
     return n
 
 
+def _splice_tuple_consts(facts, is_new):
+    """An operand `const PATH` of tuple type that the exporter left unevaluated (an associated `const X: (Kind, &[u8]) = (..)`), used
+    inside an aggregate or as a plain value: the (straight-line) statements of the constant's own body are placed in front of the
+    using statement and the operand becomes their result, so that `Some(Self::X)` reads as `Some((Kind::V, b".."))`."""
+    straight = {}
+    for c in facts["bodies"]:
+        if c.get("kind") != "const" or len(c["blocks"]) != 1 or c["blocks"][0]["term"]["k"] != "return" or not is_new(c["path"]):
+            continue
+        st = c["blocks"][0]["stmts"]
+        if not (0 < len(st) <= 16) or any(x["k"] != "assign" for x in st) or not str(c["locals"][0].get("ty", "")).startswith("("):
+            continue
+        if "uneval" in json.dumps(st):
+            continue
+        straight[c["path"]] = c
+    n = 0
+    if not straight:
+        return 0
+    for b in facts["bodies"]:
+        if b.get("kind") not in ("fn", "closure"):
+            continue
+        for bk in b["blocks"]:
+            i = 0
+            while i < len(bk["stmts"]):
+                st = bk["stmts"][i]
+                slots = []
+                if st["k"] == "assign" and st["rv"]["k"] == "use" and isinstance(st["rv"].get("op"), dict):
+                    slots = [(st["rv"], "op")]
+                elif st["k"] == "assign" and st["rv"]["k"] == "agg":
+                    slots = [(st["rv"]["fields"], j) for j in range(len(st["rv"]["fields"]))]
+                for holder, key in slots:
+                    o = holder[key]
+                    u = o.get("const", {}).get("uneval") if isinstance(o, dict) and isinstance(o.get("const"), dict) else None
+                    if u not in straight:
+                        continue
+                    c = straight[u]
+                    lo = len(b["locals"])
+                    b["locals"] = b["locals"] + [dict(l) for l in c["locals"]]
+                    ins = []
+                    for cs in c["blocks"][0]["stmts"]:
+                        cs2 = dict(cs)
+                        cs2["lhs"] = _remap_place(cs["lhs"], lo)
+                        cs2["rv"] = _remap_rv(cs["rv"], lo)
+                        cs2["line"] = st.get("line", cs.get("line"))
+                        ins.append(cs2)
+                    bk["stmts"][i:i] = ins
+                    i += len(ins)
+                    holder[key] = {"move": {"l": lo, "p": []}}
+                    n += 1
+                i += 1
+    return n
+
+
 def inline_helpers(facts, is_new, max_rounds=6):
     is_new_ctx = lambda _p: True
     """Inline calls to `new helper` functions (local bodies for which is_new(path) holds) into their callers, on
@@ -1892,6 +2096,16 @@ def inline_helpers(facts, is_new, max_rounds=6):
                 if cal in ("std::option::Option::<T>::map_or_else", "std::option::Option::<T>::map_or") and "::tests::" not in B["path"]:
                     if _expand_map_or_else(B, bi, t, by_path, cal.endswith("map_or_else")):
                         done.append((B["path"], "map_or_else"))
+                        changed = True
+                    continue
+                if re.search(r"(^std::iter::Iterator|Iterator>)::next$", cal) and "::tests::" not in B["path"]:
+                    if _unroll_array_for(B, bi, t):
+                        done.append((B["path"], "for-array"))
+                        changed = True
+                    continue
+                if cal == "std::option::Option::<T>::filter" and "::tests::" not in B["path"]:
+                    if _expand_filter(B, bi, t, by_path):
+                        done.append((B["path"], "filter"))
                         changed = True
                     continue
                 if re.search(r"iter::Iterator::(try_fold|try_for_each)$", t["func"]["path"]) and "::tests::" not in B["path"]:
@@ -1969,6 +2183,7 @@ class Program:
                 # generic parameter names are not part of a function's identity (moving a method between impl blocks renames them)
                 return _norm_generics(path) not in known and "::tests::" not in path and "{closure" not in path
             _inline_simple_consts(facts)
+            _splice_tuple_consts(facts, is_new)
             _ABSORBED.clear()
             self.inlined = inline_helpers(facts, is_new)
             # closures that did not exist on the pinned tree and whose body now sits, expanded, in the function that builds them: their
